@@ -173,7 +173,13 @@ def stream_filter(ctx, reqs):
 
 # ----------------------------------------------------------------- program generator
 
-IDENT_BASES = ['foo', 'fob', 'bar', 'baz', 'val', 'item', 'data', 'xs']
+IDENT_BASES = ['foo', 'fob', 'bar', 'baz', 'val', 'item', 'data', 'xs',
+               # identifiers whose prefix spells a keyword: while they are typed the fragment is a
+               # keyword token (an error leaf where the keyword is not allowed: `obj.is`, `x = in`)
+               'is_ok', 'index', 'order', 'andy', 'notes', 'asset', 'iffy', 'elsewhere', 'fork',
+               'trying', 'passed', 'defer', 'classy', 'returns', 'lambdas', 'withal', 'fromage']
+KEYWORD_PREFIXES = ['is', 'in', 'or', 'and', 'not', 'as', 'if', 'else', 'for', 'try', 'pass', 'def',
+                    'class', 'return', 'lambda', 'with', 'from']
 
 
 def variants(rng, base):
@@ -250,6 +256,10 @@ def gen_program(rng):
 
     def fragment_of(name):
         cut = rng.randint(0, len(name))
+        kws = [k for k in KEYWORD_PREFIXES if name.lower().lstrip('_').startswith(k)]
+        if kws and rng.random() < 0.5:
+            # stop typing exactly where the fragment spells a keyword
+            cut = len(name) - len(name.lstrip('_')) + len(rng.choice(kws))
         frag = name[:cut]
         r = rng.random()
         if r < 0.3:
